@@ -3,7 +3,8 @@ import copy
 from fractions import Fraction as F
 
 import core
-from core import Spec, standard_check, qlit, boollit
+from core import Spec, standard_check, qlit, boollit, to_val
+import kkt
 
 INF = F(1.0e30)
 OPTS = ['SLSQP', 'COBYLA', 'trust-constr']
@@ -57,11 +58,22 @@ def pow2(rng, lo=-2, hi=3):
 # ----------------------------------------------------------------------------- generator
 
 def rnd_spd(rng, n):
+    """H = M M' + diag(D), D > 0 (M, D are the positive-definiteness certificate checked in Coq)"""
     M = [[rng.randrange(-1, 2) for _ in range(n)] for _ in range(n)]
     H = [[sum(M[i][k] * M[j][k] for k in range(n)) for j in range(n)] for i in range(n)]
+    D = [rng.randrange(1, 4) for _ in range(n)]
     for i in range(n):
-        H[i][i] += rng.randrange(1, 4)
-    return H
+        H[i][i] += D[i]
+    return H, M, D
+
+
+def add_cert(case):
+    """exact optimum and KKT multipliers (active-set enumeration over Fractions), stored in the case"""
+    c = kkt.exact_optimum_cert(case)
+    case['cert'] = None if c is None else {
+        'x': [jq(v) for v in c['x']], 'lam': [jq(v) for v in c['lam']],
+        'rows': [[[jq(v) for v in a], None if l is None else jq(l), None if h is None else jq(h)] for (a, l, h) in c['rows']]}
+    return case
 
 
 def elem_pattern(rng, g, m0=0):
@@ -80,7 +92,7 @@ def elem_pattern(rng, g, m0=0):
 def rnd_case(rng, opt=None, force_first_onesided=False, allow_neg=True):
     n = rng.choice([1, 2, 2, 3, 3])
     opt = opt or rng.choice(OPTS)
-    H = rnd_spd(rng, n)
+    H, M, D = rnd_spd(rng, n)
     b = [rng.randrange(-6, 7) for _ in range(n)]
     xf = [F(rng.randrange(-8, 9), 4) for _ in range(n)]
     cons = []
@@ -168,7 +180,7 @@ def rnd_case(rng, opt=None, force_first_onesided=False, allow_neg=True):
         x0 = [v + F(rng.randrange(-8, 9), 4) for v in xf]
         lo, hi = blist(dv['lower'], n, -INF), blist(dv['upper'], n, INF)
         x0 = [min(max(v, l), h) for v, l, h in zip(x0, lo, hi)]
-    case = {'kind': 'qp', 'n': n, 'H': H, 'b': b, 'cons': cons, 'dv': dv, 'obj': obj, 'opt': opt,
+    case = {'kind': 'qp', 'n': n, 'H': H, 'M': M, 'D': D, 'b': b, 'cons': cons, 'dv': dv, 'obj': obj, 'opt': opt,
             'x0': [jq(v) for v in x0], 'xp': [jq(F(rng.randrange(-8, 9), 4)) for _ in range(n)],
             'tol_feas': 1e-6, 'tol_opt': {'SLSQP': 5e-5, 'COBYLA': 2e-4, 'trust-constr': 1e-2}[opt]}
     return case
@@ -201,6 +213,7 @@ def pattern_cases():
                             'dv': {'lower': None, 'upper': None, 'adder': None, 'scaler': None},
                             'obj': {'adder': None, 'scaler': None}, 'opt': opt,
                             'x0': [jq(0)] * n, 'xp': [jq(F(3, 4))] * n, 'class': 'patterns',
+                            'M': [], 'D': [2] * n,
                             'tol_feas': 1e-6, 'tol_opt': {'SLSQP': 5e-5, 'COBYLA': 2e-4, 'trust-constr': 1e-2}[opt]})
     return out
 
@@ -234,9 +247,25 @@ def has_neg(con):
     return any(v < 0 for v in blist(sc['scaler'], con_size(con), F(1)))
 
 
+def cert_term(c):
+    """kkt_check && gram_check on the exact optimum / multipliers / (M, D) stored in the case"""
+    ce = c.get('cert')
+    if not ce:
+        return 'false'
+    n = c['n']
+    mat = lambda rows: '[%s]' % '; '.join(qvec([F(v) for v in r]) for r in rows)   # noqa: E731
+    oq = lambda v: 'None' if v is None else '(Some %s)' % qlit(fr(v))               # noqa: E731
+    cl = '; '.join('(mkrow %s %s %s, %s)' % (qvec([fr(v) for v in a]), oq(l), oq(h), qlit(fr(lam)))
+                   for (a, l, h), lam in zip(ce['rows'], ce['lam']))
+    m = len(c['M'][0]) if c['M'] else 0
+    return ('kkt_check %d%%nat %s %s [%s] %s && gram_check %d%%nat %d%%nat %s %s %s' % (
+        n, mat(c['H']), qvec([F(v) for v in c['b']]), cl, qvec([fr(v) for v in ce['x']]),
+        n, m, mat(c['H']), mat(c['M']), qvec([F(v) for v in c['D']])))
+
+
 class C21(Spec):
     pid = 'C21'
-    imports = ['C21.Model']
+    imports = ['C21.Model', 'C21.ModelKKT']
     impl_script = 'props/C21/impl.py'
     exactness = ('E1/E3 exact: the list of constraint descriptors handed to scipy.optimize.minimize (type, name, dbl, idx; '
                  'lb/ub/A of new-style objects) and _confunc/_congradfunc probes on dyadic data; E4 (tolerances in each case: '
@@ -257,10 +286,10 @@ class C21(Spec):
             c = rnd_case(rng, opt=OPTS[k % 3], force_first_onesided=(k % 4 == 0), allow_neg=ALLOW_NEG)
             c['class'] = 'random'
             cases.append(c)
-        return cases
+        return [add_cert(c) for c in cases]
 
     def search_gen(self, tier, rng):
-        return [dict(rnd_case(rng, allow_neg=ALLOW_NEG), **{'class': 'random'}) for _ in range(600)]
+        return [add_cert(dict(rnd_case(rng, allow_neg=ALLOW_NEG), **{'class': 'random'})) for _ in range(600)]
 
     def compare_case(self, case, res):
         # a case on which the oracle already fails is reported as a failing input (or as a known
@@ -276,9 +305,17 @@ class C21(Spec):
         ks = '[%s]' % '; '.join('k%d' % i for i in names)
         probes = '; '.join('probe %s %s k%d (con_vals a%d s%d A%d %s)' % (
             boollit(GRAD[c['opt']]), boollit(NEW[c['opt']]), i, i, i, i, qvec(xp)) for i in names)
-        return '(%s\n  VL [encode_all %s %s; VL [%s]])' % (lets, boollit(NEW[c['opt']]), ks, probes)
+        return '(%s\n  VL [encode_all %s %s; VL [%s]; VB (%s)])' % (lets, boollit(NEW[c['opt']]), ks, probes, cert_term(c))
+
+    def want_term(self, case, res):
+        # third component: the Coq checkers must accept the certificate of the optimum the oracle uses
+        return to_val(list(res['res']) + [True])
 
     def shrink(self, c):
+        for d in self._shrink(c):
+            yield add_cert(d)
+
+    def _shrink(self, c):
         if len(c['cons']) > 1:
             for k in range(len(c['cons'])):
                 if has_neg(c['cons'][k]):
